@@ -1,10 +1,145 @@
 import Driver.Util
-open Lean Driver
+import GinjaxVerif.Model.C20
+open Lean Driver GinjaxVerif.C20
 
 namespace Driver.C20
 
-def handle (op : String) (_j : Json) : R Json := do
+def asTy (j : Json) : R Ty := do
+  match j with
+  | .arr #[k, p] => pure ((← asNat k), (← asNat p))
+  | _ => throw s!"not a (k,p) pair: {j.compress}"
+
+def asSig (j : Json) : R Sig := do
+  let l ← asList (fun e => do
+    match e with
+    | .arr #[t, c] => pure ((← asTy t), (← asNat c))
+    | _ => throw s!"not a ((k,p),c) entry: {e.compress}") j
+  -- the model's standing assumption: keys pairwise distinct
+  if (keysOf l).eraseDups.length != l.length then throw "bad-op: repeated key in a signature"
+  pure l
+
+def asBank (j : Json) : R Bank := do
+  let ks ← listF asTy j "keys"
+  let m ← natF j "M"
+  pure ⟨ks, m⟩
+
+def asBias (j : Json) : R BiasMode :=
+  match j with
+  | .bool true => pure .true_
+  | .bool false => pure .false_
+  | .str "auto" => pure .auto
+  | .str "mean" => pure .mean
+  | .str "scalar" => pure .scalar
+  | _ => throw s!"bad bias setting {j.compress}"
+
+def asMI (j : Json) : R MI := do
+  let sig ← field j "sig" >>= asSig
+  let dims ← listF asNat j "dims"
+  let d ← natF j "D"
+  let torus ← listF asBool j "torus"
+  pure ⟨sig, dims, d, torus⟩
+
+def asOpts (j : Json) : R ConvOpts := do
+  let stride := ((optField j "stride").bind (fun v => (asNat v).toOption)).getD 1
+  let lhs := ((optField j "lhs_dilation").bind (fun v => (asNat v).toOption)).getD 1
+  let rhs := ((optField j "rhs_dilation").bind (fun v => (asNat v).toOption)).getD 1
+  let padding ← match optField j "padding" with
+    | none => pure none
+    | some (.arr #[lo, hi]) => do pure (some ((← asNat lo), (← asNat hi)))
+    | some v => throw s!"bad padding {v.compress}"
+  pure { stride := stride, padding := padding, lhsDil := lhs, rhsDil := rhs }
+
+def jTy (t : Ty) : Json := Json.arr #[jNat t.1, jNat t.2]
+def jSig (s : Sig) : Json := jList (fun b => Json.arr #[jTy b.1, jNat b.2]) s
+
+def jObs (x : MI) : Json :=
+  Json.mkObj [("sig", jSig x.sig), ("dims", jList jNat x.spatialDims), ("D", jNat x.D),
+              ("torus", jList jBool x.torus)]
+
+def asKernel (d : Nat) (j : Json) (k : String) : R (Option (List Nat)) :=
+  match optField j k with
+  | none => pure none
+  | some (.arr a) => do pure (some (← a.toList.mapM asNat))
+  | some v => do pure (some (List.replicate d (← asNat v)))
+
+def asCfg (j : Json) : R NetCfg := do
+  let d ← natF j "D"
+  let inSig ← field j "input_keys" >>= asSig
+  let outSig ← field j "output_keys" >>= asSig
+  let depth ← natF j "depth"
+  let eq ← boolF j "equivariant"
+  let mid ← match optField j "mid_keys" with
+    | none => pure (defaultMid d inSig outSig depth eq)
+    | some v => asSig v
+  let bias ← field j "use_bias" >>= asBias
+  let act ← boolF j "activation"
+  let gn ← boolF j "use_group_norm"
+  let bank ← match optField j "bank" with
+    | none => if eq then throw "raises: equivariant model without conv_filters" else pure ⟨[], 1⟩
+    | some v => asBank v
+  let upBank ← match optField j "up_bank" with
+    | none => pure ⟨[], 2⟩
+    | some v => asBank v
+  let kernel ← asKernel d j "kernel_size"
+  let numDown := ((optField j "num_downsamples").bind (fun v => (asNat v).toOption)).getD 0
+  let numConv := ((optField j "num_conv").bind (fun v => (asNat v).toOption)).getD 2
+  let numBlocks := ((optField j "num_blocks").bind (fun v => (asNat v).toOption)).getD 0
+  let preact := ((optField j "preactivation_order").bind (fun v => (asBool v).toOption)).getD false
+  pure { D := d, inSig := inSig, outSig := outSig, mid := mid, depth := depth, equivariant := eq,
+         bias := bias, act := act, groupNorm := gn, bank := bank, kernel := kernel,
+         numDown := numDown, numConv := numConv, upBank := upBank, numBlocks := numBlocks,
+         preact := preact }
+
+def handle (op : String) (j : Json) : R Json := do
   match op with
+  | "c20.model" =>
+    let cls ← strF j "class"
+    let cfg ← field j "cfg" >>= asCfg
+    let x ← field j "x" >>= asMI
+    let out ← match cls with
+      | "unet" => pure (mkUNet cfg x)
+      | "resnet" => pure (mkResNet cfg x)
+      | "dilresnet" => pure (mkDilResNet cfg x)
+      | _ => throw s!"unknown class {cls}"
+    match out with
+    | none => throw "raises"
+    | some y => pure (Json.mkObj [("out", jObs y), ("mid", jSig cfg.mid)])
+  | "c20.conv" =>
+    let bank ← field j "bank" >>= asBank
+    let declared ← field j "input_keys" >>= asSig
+    let target ← field j "target_keys" >>= asSig
+    let bias ← field j "use_bias" >>= asBias
+    let opts ← match optField j "opts" with
+      | none => pure {}
+      | some v => asOpts v
+    let x ← field j "x" >>= asMI
+    let legacy := legacyConvContractSig bank target bias (keysOf x.sig)
+    let spec := convContractOut bank x.sig target
+    match convContract bank declared target bias opts x with
+    | none => throw "raises"
+    | some y => pure (Json.mkObj [("out", jObs y), ("legacy_sig", jSig legacy), ("spec_sig", jSig spec)])
+  | "c20.union" =>
+    let a ← field j "a" >>= asSig
+    let b ← field j "b" >>= asSig
+    let c ← natF j "c"
+    pure (jSig (sigUnion a b c))
+  | "c20.scalar" =>
+    -- layout of to_scalar_multi_image / from_scalar_multi_image for a signature
+    let d ← natF j "D"
+    let sig ← field j "sig" >>= asSig
+    let size := scalarSize d sig
+    let fwd := sig.flatMap (fun b =>
+      (List.range b.2).flatMap (fun ch =>
+        (List.range (d ^ b.1.1)).map (fun comp => (b.1, ch, comp, toScalarPos d sig b.1 ch comp))))
+    let jOptNat : Option Nat → Json := fun o => match o with | none => Json.null | some n => jNat n
+    let bwd := (List.range size).map (fun pos => fromScalarPos d sig pos)
+    pure (Json.mkObj [
+      ("size", jNat size),
+      ("to_scalar", jList (fun (t, ch, comp, p) => Json.arr #[jTy t, jNat ch, jNat comp, jOptNat p]) fwd),
+      ("from_scalar", jList (fun o => match o with
+          | none => Json.null
+          | some (t, ch, comp) => Json.arr #[jTy t, jNat ch, jNat comp]) bwd),
+      ("to_scalar_sig", jSig (toScalar ⟨sig, [], d, []⟩).sig)])
   | _ => throw s!"unknown op {op}"
 
 end Driver.C20
